@@ -4,7 +4,7 @@ CONSTANTS
   NClients = 1
   Choices <- ChoicesAll1
   BgSeq <- BgAll
-  Fixed = {"StartAll", "StopAll", "resolveAndAddPeer", "moveTorrent", "reserveID", "cleanLive", "compactLocks", "dhtDropOnStop"}
+  Fixed = {"StartAll", "StopAll", "resolveAndAddPeer", "moveTorrent", "reserveID", "cleanLive", "cleanReset", "compactLocks", "dhtDropOnStop"}
   Budget = 1
   Allowed <- AnyPick
 INVARIANT TypeOK
